@@ -21,16 +21,16 @@ P = {
    text="Exhaustive short strings over an XML token alphabet, structure-aware mutations of valid documents for all versions, random bytes and pathological nesting are pushed through load_buffer (strict, lenient) and check_buffer with a panic hook and process-exit monitor; every error/warning line is range-checked. A share of the inputs (all accepted ones, one in sixteen of the others) is also written to a scratch file: load_file must behave exactly like load_buffer on the file's bytes and check_file must accept every loadable file whose header lies within the 4096 bytes it reads.",
    note="stuck inputs are judged by a logical progress criterion, never by wall clock alone; deep nesting runs in child processes", ref="5/C02"),
  "C03": dict(engine="HIST", technique="runtime invariant monitor (tree shape, iterators agree, stale handles fail) after every call of generated API histories",
-   text="After every call of seeded random histories (30-60 calls plus growth steps, 1-3 models, 1-4 files, incl. unsorted/partial/failing merges) the full tree-shape monitor walks the model and compares parent/position/model/iterators; stale handles are probed with every place-dependent request and must fail without changing the live model. Thorough adds a small API tour with the same monitors under Miri. The depth-first iterator is also driven with next_sibling() after selected elements (with and without depth limit) and compared with the pre-order listing with the skipped subtrees removed.",
+   text="After every call of seeded random histories (30-60 calls plus growth steps, 1-3 models, 1-4 files, incl. unsorted/partial/failing merges) the full tree-shape monitor walks the model and compares parent/position/model/iterators; stale handles are probed with every place-dependent request and must fail without changing the live model. Thorough adds a small API tour with the same monitors under Miri. The depth-first iterator is also driven with next_sibling() after selected elements (with and without depth limit) and compared with the pre-order listing with the skipped subtrees removed. In addition every history of 3 calls (thorough: 4, evenly spaced beyond the cap) over a fixed small universe with colliding names is executed with the same monitors after every call (bounded exhaustive part, see DESIGN 11.8).",
    note="histories are generated, not exhaustive beyond the stated bound; trusted: harness bookkeeping of live/stale handles by its own tree walk", ref="5/C03"),
  "C04": dict(engine="HIST", technique="runtime invariant monitor: path index ≡ tree-derived path map after every call",
-   text="After every call and load, the path index observed through get_element_by_path/identifiable_elements/path is compared with a map derived independently from the tree (item names of identifiable ancestors), including negative probes of near-miss keys. Thorough repeats the quick workload in an AddressSanitizer build.",
+   text="After every call and load, the path index observed through get_element_by_path/identifiable_elements/path is compared with a map derived independently from the tree (item names of identifiable ancestors), including negative probes of near-miss keys. Thorough repeats the quick workload in an AddressSanitizer build. In addition every history of 3 calls (thorough: 4, evenly spaced beyond the cap) over a fixed small universe with colliding names is executed with the same monitors after every call (bounded exhaustive part, see DESIGN 11.8).",
    note="expected map is derived from content()/item_name() only", ref="5/C04"),
  "C05": dict(engine="HIST", technique="runtime invariant monitor: reverse reference map (hook accessor + public API) ≡ tree-derived referrer multiset; check_references oracle",
-   text="After every call the referrer lists (all keys via the read-only hook, plus get_references_to) are compared with the multiset of reference elements found by walking the tree; check_references and get_reference_target are compared with an independent resolution. Thorough repeats the quick workload in an AddressSanitizer build.",
+   text="After every call the referrer lists (all keys via the read-only hook, plus get_references_to) are compared with the multiset of reference elements found by walking the tree; check_references and get_reference_target are compared with an independent resolution. Thorough repeats the quick workload in an AddressSanitizer build. In addition every history of 3 calls (thorough: 4, evenly spaced beyond the cap) over a fixed small universe with colliding names is executed with the same monitors after every call (bounded exhaustive part, see DESIGN 11.8).",
    note="uses hook verif_reference_origins(); dead weak entries are not judged", ref="5/C05"),
  "C06": dict(engine="HIST", technique="runtime pre/post monitor around rename/move: same-target-object oracle over the whole reference graph",
-   text="Before each rename/move the harness resolves every reference to its target object with its own index; afterwards references that designated the renamed/moved element or its descendants must designate the same objects, all others keep their text.",
+   text="Before each rename/move the harness resolves every reference to its target object with its own index; afterwards references that designated the renamed/moved element or its descendants must designate the same objects, all others keep their text. In addition every history of 3 calls (thorough: 4, evenly spaced beyond the cap) over a fixed small universe with colliding names is executed with the same monitors after every call (bounded exhaustive part, see DESIGN 11.8).",
    note="resolution by harness-side index, not by the crate's cache", ref="5/C06"),
  "C07": dict(engine="HIST", technique="runtime monitor: independent pairwise order model vs calc_element_insert_range/create_*_at/list_valid_sub_elements; serialize→lenient-load validator agreement",
    text="On API-built models over all element types and versions the insertion range, create-at success and allowed-list are compared with a pairwise reference order model; after every successful call every value must lie in its value space (length limit, pattern, enum item valid in the version, kind) and every identifiable element must have its SHORT-NAME; serialized output is re-validated by the lenient loader and compared with the original content. Quick visits every element type twice; types with unusual naming rules (identifiable with mixed content, identifiable in some versions only) get extra cases and a directed sequence of calls against their SHORT-NAME; a directed sweep copies every enumeration-typed element whose value exists in some versions only into a model of a version that lacks it.",
@@ -42,22 +42,22 @@ P = {
    text="Random master models are split at splittable points into 2-4 files with shuffled sibling order; every load order must give the master's content, order-independent merged content, per-file projections, and Element::file_membership() of every identifiable element must name exactly the files whose text contains it. Thorough repeats the quick workload in an AddressSanitizer build.",
    note="value conflicts between files are outside the precondition and not generated", ref="5/C09"),
  "C10": dict(engine="HIST", technique="runtime invariant monitor of file membership after every call; per-file text vs projection; remove_file delta oracle",
-   text="After every call of file-set histories on 1-4 file models the membership invariants, per-file serialization vs projection and self-containedness are checked; remove_file must remove exactly the elements attributed to that file alone. Thorough repeats the quick workload in an AddressSanitizer build.",
+   text="After every call of file-set histories on 1-4 file models the membership invariants, per-file serialization vs projection and self-containedness are checked; remove_file must remove exactly the elements attributed to that file alone. Thorough repeats the quick workload in an AddressSanitizer build. In addition every history of 3 calls (thorough: 4, evenly spaced beyond the cap) over a fixed small universe with colliding names is executed with the same monitors after every call (bounded exhaustive part, see DESIGN 11.8).",
    note="per-file text is read back with the crate's own lenient loader and compared with the harness projection", ref="5/C10"),
  "C11": dict(engine="HIST", technique="runtime monitor: full-state snapshot before/after every failing call (hostile-argument generator)",
-   text="A canonical snapshot (tree with values, files, membership, path index, referrer lists via hook) is taken before every call; whenever the call returns Err the snapshot afterwards must be identical. A directed sweep adds failing create calls for element types round-robin over the whole specification, in old and new versions, with every sub element name the type lists in any version.",
+   text="A canonical snapshot (tree with values, files, membership, path index, referrer lists via hook) is taken before every call; whenever the call returns Err the snapshot afterwards must be identical. A directed sweep adds failing create calls for element types round-robin over the whole specification, in old and new versions, with every sub element name the type lists in any version. In addition every history of 3 calls (thorough: 4, evenly spaced beyond the cap) over a fixed small universe with colliding names is executed with the same monitors after every call (bounded exhaustive part, see DESIGN 11.8).",
    note="disk writes excluded; snapshot covers what the property calls observable", ref="5/C11"),
  "C12": dict(engine="HIST", technique="runtime monitor: catch_unwind + single-thread self-deadlock detector in the lock shim (+ Miri on a small API tour in thorough); process aborts on deep models are observed by the child processes of C02",
    text="The whole public API is driven with hostile arguments and stale/foreign handles on generated, loaded (lenient) and merged models; panics, aborts, unsatisfiable blocking lock requests by the only thread and ParentElementLocked results are violations.",
    note="a hang is decided logically by the lock monitor (request conflicts with the requester's own holdings), not by timeouts", ref="5/C12"),
  "C13": dict(engine="HIST", technique="runtime monitor: copy-vs-source structural diff, independent version filter, independence by snapshot",
-   text="Around every deep copy the copy is compared structurally with its source (same version: identical up to the name suffix; other version: exactly the permitted parts), indexes are checked, and after duplicate() edits of one side must leave the other side's snapshot unchanged. Thorough repeats the quick workload in an AddressSanitizer build.",
+   text="Around every deep copy the copy is compared structurally with its source (same version: identical up to the name suffix; other version: exactly the permitted parts), indexes are checked, and after duplicate() edits of one side must leave the other side's snapshot unchanged. Thorough repeats the quick workload in an AddressSanitizer build. In addition every history of 3 calls (thorough: 4, evenly spaced beyond the cap) over a fixed small universe with colliding names is executed with the same monitors after every call (bounded exhaustive part, see DESIGN 11.8).",
    note="permitted-in-version is computed by an independent walk over the specification tables", ref="5/C13"),
  "C14": dict(engine="HIST", technique="runtime monitor around sort: multiset preservation, idempotence, permutation independence",
-   text="Around sort() the children multiset at every element, order where reordering is forbidden, idempotence and independence of the initial sibling permutation are checked (API-built sibling families and whole-specification documents with same-kind siblings multiplied at every nesting level, also below ordered elements), together with the structural monitors. Thorough repeats the quick workload in an AddressSanitizer build.",
+   text="Around sort() the children multiset at every element, order where reordering is forbidden, idempotence and independence of the initial sibling permutation are checked (API-built sibling families and whole-specification documents with same-kind siblings multiplied at every nesting level, also below ordered elements), together with the structural monitors. Thorough repeats the quick workload in an AddressSanitizer build. Permutation scenarios include keyless siblings that differ only in float / unsigned values (NaN, infinities, signed zeros, subnormals).",
    note="siblings identical up to comments are identified, as the property allows", ref="5/C14"),
  "C15": dict(engine="SCHED", technique="runtime lock-event monitor + serialising scheduler over real threads running the real code (deadlock = unfinished threads, none enabled); lock model validated against the real parking_lot lock on every grant; thorough adds free-running pairs under Miri",
-   text="Pairs/triples of public operations run on real threads; every lock acquisition is a scheduling point decided by a bounded-deviation depth-first / random scheduler over a model of parking_lot's RwLock (lazy and eager timeouts of the timed requests); a state with unfinished threads and none enabled is a deadlock. Every request the model grants is executed with try_* on the real lock and must succeed (a mismatch makes the run inconclusive).",
+   text="Pairs/triples of public operations run on real threads; every lock acquisition is a scheduling point decided by a bounded-deviation depth-first / random scheduler over a model of parking_lot's RwLock (lazy and eager timeouts of the timed requests); a state with unfinished threads and none enabled is a deadlock. Every request the model grants is executed with try_* on the real lock and must succeed (a mismatch makes the run inconclusive). Single deviations from the default schedule are taken evenly spaced over the whole run when they exceed the per-tuple budget.",
    note="restated as bounded progress; lock model derived from parking_lot 0.12 raw_rwlock.rs", ref="5/C15"),
  "C16": dict(engine="SCHED", technique="runtime monitor: outcome ∈ {sequential orders} per explored schedule + structural monitors after join",
    text="For each explored schedule of an operation pair the returned values and final snapshot must equal those of some sequential order (or an order without the operations that returned ParentElementLocked).",
@@ -72,7 +72,7 @@ P = {
    text="Each of the 28 validator functions is compared with a DFA built from its published regex on all strings up to a length bound over a reduced alphabet, a W-method conformance set and generated members with neighbours.",
    note="reading of '.' and \\d fixed as in DESIGN 4.3; strings where readings differ are excluded and counted", ref="5/C19"),
  "C20": dict(engine="TABLE", technique="runtime oracle: format/parse round trip through the public API; numeric interpretation vs exact big-integer / CPython float oracle",
-   text="Values of all four kinds are round-tripped through set/serialize/load/to_string; texts generated from the AUTOSAR lexical forms are interpreted by parse_integer/parse_float/parse_bool and compared with exact radix arithmetic and CPython's correctly rounded float().",
+   text="Values of all four kinds are round-tripped through set/serialize/load/to_string; texts generated from the AUTOSAR lexical forms are interpreted by parse_integer/parse_float/parse_bool and compared with exact radix arithmetic and CPython's correctly rounded float(). Typed variants (Float, UnsignedInteger, Enum, String made through the From conversions) are checked through every accessor and interpretation function.",
    note="CPython float() and the harness's exact decimal comparison are the numeric oracles", ref="5/C20"),
 }
 
